@@ -174,10 +174,75 @@ def oracle(spec, k1=False):
     return out
 
 
+# ---------------------------------------------------------------- rule chains (each rule works on the previous rule's output)
+
+CHAIN_GATES = {"X": 1, "Z": 1, "H": 1, "S": 1, "T": 1, "Y": 1, "CNOT": 2, "SWAP": 2}
+
+
+@st.composite
+def chain_cases(draw, tier):
+    n = draw(st.integers(1, 3))
+    rules = draw(st.one_of(st.sampled_from([["x", "z"], ["x", "h"], ["h", "u3"], ["x", "h", "u3"], ["x", "z", "h", "u3"], ["z", "x", "h"], ["x", "u3", "h"]]),
+                           st.lists(st.sampled_from(["x", "z", "h", "u3"]), min_size=2, max_size=5)))
+    # leave out the gate kinds later rules look for (most of the time), so that those rules match nothing in the input
+    feeds = {"x": "X", "z": "Z", "h": "H"}
+    starve = draw(st.integers(0, 3)) > 0
+    banned = {feeds[r] for r in rules[1:] if r in feeds} if starve else set()
+    pool = [g for g in sorted(CHAIN_GATES) if CHAIN_GATES[g] <= n and g not in banned]
+    first = feeds.get(rules[0])
+    ops = []
+    for i in range(draw(st.integers(1, 5))):
+        g = first if (i == 0 and first and first not in banned) else draw(st.sampled_from(pool))
+        perm = list(draw(st.permutations(list(range(n)))))
+        ops.append({"g": g, "p": [], "mods": [], "q": perm[: CHAIN_GATES[g]]})
+    if not (starve and "u3" in rules[1:]) and draw(st.booleans()):
+        ops.append({"g": "U3", "p": [draw(cgen.angles()) for _ in range(3)], "mods": [], "q": [draw(st.integers(0, n - 1))]})
+    ops = [ops[i] for i in draw(st.permutations(list(range(len(ops)))))]
+    return {"n": n, "width": draw(st.sampled_from([None, n + 1])), "ops": ops, "rules": rules, "via": draw(st.sampled_from(["operations", "circuit"]))}
+
+
+def o_chain(spec):
+    from orquestra.quantum.circuits import Circuit
+    from orquestra.quantum.decompositions import decompose_operations, decompose_orquestra_circuit
+
+    c = cgen.build_circuit(spec)
+    n = c.n_qubits
+    R = _rules()
+    rules = [R[r] for r in spec["rules"]]
+    # independent model of the stated semantics: one full pass per rule, in the order given
+    want = list(c.operations)
+    fed = False
+    for r in rules:
+        nxt = []
+        matched_input = any(r.predicate(op) for op in c.operations)
+        for op in want:
+            if r.predicate(op):
+                nxt.extend(list(r.production(op)))
+                if not matched_input:
+                    fed = True
+            else:
+                nxt.append(op)
+        want = nxt
+    if spec["via"] == "operations":
+        got = list(must(lambda: decompose_operations(list(c.operations), rules), "decompose_operations"))
+    else:
+        dc = must(lambda: decompose_orquestra_circuit(c, rules), "decompose_orquestra_circuit")
+        require(dc.n_qubits == n, lambda: f"decomposed circuit has width {dc.n_qubits}, original {n}")
+        got = list(dc.operations)
+    require(got == want, lambda: f"rules {spec['rules']}: result {[str(o) for o in got]} is not what applying each rule in turn to the previous rule's output gives: {[str(o) for o in want]}")
+    A, B = _own(c, n), _own(Circuit(got, n), n)
+    require(ref.equal_up_to_phase(B, A, 1e-8), lambda: f"rules {spec['rules']}: decomposed circuit does not act as the original up to a global phase")
+    return {"classes": (["later_rule_fed_only_by_earlier_output"] if fed else []) + ["via:" + spec["via"]], "nontrivial": fed}
+
+
 SUBCHECKS = [
     SubCheck("decompose", oracle, strategy=circ, examples=(90, 1200), shards=(12, 16), fork_timeout=60,
              rule="action up to global phase, untouched operations in order, width kept, empty rule list, rule order law"),
     SubCheck("probe_K1", lambda s: oracle(s, k1=True), strategy=lambda t: circ(t, k1=True), examples=(60, 250), shards=(2, 4), fork_timeout=60,
              rule="open finding K1: controlled-U3 with arbitrary lambda; accepted only when equivalent or with the recorded residual"),
 ]
+SUBCHECKS.append(SubCheck("rule_chains", o_chain, strategy=chain_cases, examples=(400, 3000), shards=(2, 8),
+                          rule="rule lists of length 2..5 over X->HZH, Z->SS, H->U3, U3->rotations on circuits that lack some gate kinds: the result equals one full pass per rule in the given "
+                               "order (own sequential model), by decompose_operations and decompose_orquestra_circuit; non-trivial = a rule that matches nothing in the input but matches an earlier rule's output"))
+SUBCHECKS[2].expected_classes = ["later_rule_fed_only_by_earlier_output", "via:operations", "via:circuit"]
 SUBCHECKS[0].expected_classes = ["two_controls", "cu3_permuted", "plain_u3", "rule_feeding_rule", "idle_top_qubit"]
